@@ -23,10 +23,13 @@ class FSBase:
         self.crash_hook = crash_hook  # callable(tick_index, what) -> bool: crash now?
         self.armed = True
         self.removed_dirs = []
+        self.on_crash = None  # called at the instant of an interruption, before any handler of the interrupted code can run
 
     def tick(self, what):
         if self.armed and self.crash_hook is not None and self.crash_hook(self.ticks, what):
             self.armed = False
+            if self.on_crash is not None:
+                self.on_crash()
             raise Crash(what)
         self.ticks += 1
 
